@@ -18,7 +18,7 @@ Proof.
           | eapply presS_HNotice; eassumption | eapply presS_HClosed; eassumption
           | eapply presS_HRetryStop; eassumption
           | eapply presS_HTake; eassumption | eapply presS_HSkip; eassumption | eapply presS_HDrop; eassumption
-          | eapply presS_PInvoke; eassumption | eapply presS_HTimer; eassumption | eapply presS_HClose; eassumption
+          | eapply presS_PLookup; eassumption | eapply presS_PInvoke; eassumption | eapply presS_HTimer; eassumption | eapply presS_HClose; eassumption
           | eapply presS_PFlushStart; eassumption | eapply presS_PPutWS; eassumption | eapply presS_PPutPos; eassumption
           | eapply presS_PMail; eassumption | eapply presS_HFlushDone; eassumption ].
 Qed.
@@ -28,7 +28,7 @@ Lemma presE g c s a s' :
 Proof.
   intros Hc HS HE Hg H.
   destruct a;
-    try first [ eapply presE_Append; eassumption | eapply presE_RInitOk; eassumption | eapply presE_PInvoke; eassumption
+    try first [ eapply presE_PLookup; eassumption | eapply presE_Append; eassumption | eapply presE_RInitOk; eassumption | eapply presE_PInvoke; eassumption
               | eapply presE_PFlushStart; eassumption | eapply presE_PPutWS; eassumption | eapply presE_PPutPos; eassumption
               | eapply presE_PMail; eassumption | eapply presE_HTake; eassumption | eapply presE_HSkip; eassumption
               | eapply presE_HTimer; eassumption | eapply presE_HClose; eassumption | eapply presE_HFlushDone; eassumption ].
@@ -49,7 +49,7 @@ Proof.
     destruct (step c s a) as [s1|] eqn:Es; [|discriminate].
     apply (IH s1 s'); [|exact H]. destruct HI as [HS HO HE]. constructor.
     + eapply presS; eassumption.
-    + eapply presO; eassumption.
+    + eapply presO; try eassumption. exact (ok_descmust _ Hc).
     + eapply presE; try eassumption. intros ->. exact Eg.
 Qed.
 
@@ -85,13 +85,13 @@ Proof.
   unfold tracked. change (0, @nil N) with (g_init (sg init), g_inv (sg init)).
   rewrite (runG_track _ _ _ _ _ H). cbn [fst snd]. unfold InvO in HO.
   destruct HS. unfold pend in HO. destruct (pc (sj s)) eqn:Epc.
-  1,3,4: exists (N.to_nat (g_done (sg s) - g_init (sg s))); rewrite app_nil_r in HO; split; [exact HO | lia].
-  destruct (i_pin _ eq_refl) as (_ & Hd & Hlt & Ht). subst o.
-  exists (N.to_nat (g_done (sg s) - 1 - g_init (sg s))). split; [|lia].
-  replace (N.to_nat (g_done (sg s) - g_init (sg s))) with (S (N.to_nat (g_done (sg s) - 1 - g_init (sg s)))) in HO by lia.
-  rewrite seqN_snoc, filter_snoc in HO.
-  replace (g_init (sg s) + 1 + N.of_nat (N.to_nat (g_done (sg s) - 1 - g_init (sg s)))) with (g_done (sg s)) in HO by lia.
-  rewrite Ht in HO. apply app_inj_tail in HO. exact (proj1 HO).
+  1,4,5: exists (N.to_nat (g_done (sg s) - g_init (sg s))); rewrite app_nil_r in HO; split; [exact HO | lia].
+  all: destruct (i_pin _ eq_refl) as (_ & Hd & Hlt & Ht); subst o.
+  all: exists (N.to_nat (g_done (sg s) - 1 - g_init (sg s))); (split; [|lia]).
+  all: replace (N.to_nat (g_done (sg s) - g_init (sg s))) with (S (N.to_nat (g_done (sg s) - 1 - g_init (sg s)))) in HO by lia.
+  all: rewrite seqN_snoc, filter_snoc in HO.
+  all: replace (g_init (sg s) + 1 + N.of_nat (N.to_nat (g_done (sg s) - 1 - g_init (sg s)))) with (g_done (sg s)) in HO by lia.
+  all: rewrite Ht in HO; apply app_inj_tail in HO; exact (proj1 HO).
 Qed.
 
 Theorem position_le_effects_proved c l s : cfg_ok c -> runG false c init l = Some s ->
